@@ -82,6 +82,19 @@ class Gen:
     def new_file(self, content: bytes, prefix="f", ext=".bin"):
         self.nfile += 1
         name = f"{prefix}{self.nfile}{ext}"
+        if self.p(0.08):
+            # file names are taken literally: a name holding shell pattern characters next to a file that the name, read as a pattern, would match (C05-p)
+            self.features.add("file:pattern-like-name")
+            form = self.r.choice(["[", "?", "*"])
+            if form == "[":
+                name = f"{prefix}[{self.nfile}]{ext}"
+            elif form == "?":
+                name = f"{prefix}?{self.nfile}{ext}"
+                self.files[f"{prefix}x{self.nfile}{ext}"] = b"decoy" + content[::-1]
+            else:
+                name = f"{prefix}{self.nfile}*{ext}"
+                self.files[f"{prefix}{self.nfile}x{ext}"] = b"decoy" + content[::-1]
+            self.files[f"{prefix}{self.nfile}{ext}"] = b"decoy" + content[::-1]
         self.files[name] = content
         return name
 
